@@ -83,6 +83,32 @@ Proof.
   - auto.
 Qed.
 
+(* ScoreCache.score(model), called after ANY sequence of cached local_score calls, is exactly score(model) of
+   the wrapped score (local scores and structure prior), and leaves a valid cache *)
+Lemma fold_left_app_map : forall A (F : A -> list (Qc * atom)) l acc,
+  fold_left (fun acc v => acc ++ F v) l acc = fold_left (fun acc s => acc ++ s) (map F l) acc.
+Proof. induction l as [|a l IH]; intros acc; simpl; [reflexivity | apply IH]. Qed.
+Theorem cache_transparent_total : forall cards d sc maxs calls nodes edges, (1 <= maxs)%nat ->
+  let c := snd (cached_scores cards d sc maxs calls) in
+  fst (cached_total_score cards d sc maxs c nodes edges) = total_score cards d sc nodes edges
+  /\ (forall k v, In (k, v) (snd (cached_total_score cards d sc maxs c nodes edges)) ->
+        v = local_score cards d sc (fst k) (snd k))
+  /\ (length (snd (cached_total_score cards d sc maxs c nodes edges)) <= maxs)%nat.
+Proof.
+  intros cards d sc maxs calls nodes edges Hm c.
+  destruct (cache_transparent cards d sc maxs calls Hm) as [_ [C1 C2]]. fold c in C1, C2.
+  unfold cached_total_score.
+  destruct (lru_transparent key (list (Qc * atom)) key_eqb
+              (fun k => local_score cards d sc (fst k) (snd k)) key_eqb_sound maxs
+              (map (fun v => (v, preds edges v)) nodes) c Hm (conj C1 C2)) as [H1 [H2 H3]].
+  destruct (lru_run key (list (Qc * atom)) key_eqb (fun k => local_score cards d sc (fst k) (snd k)) maxs c
+              (map (fun v => (v, preds edges v)) nodes)) as [outs c'].
+  simpl in *. split; [|split; assumption].
+  unfold total_score. f_equal.
+  rewrite (fold_left_app_map _ (@fst (list (Qc * atom)) bool)), H1, map_map.
+  rewrite (fold_left_app_map _ (fun v => local_score cards d sc v (preds edges v))). reflexivity.
+Qed.
+
 (* score(model) = sum of the local scores + structure prior, under every interpretation *)
 Lemma fold_left_app_acc : forall (F : nat -> list (Qc * atom)) nodes acc,
   fold_left (fun acc v => acc ++ F v) nodes acc = acc ++ fsumof nodes F.
